@@ -10,14 +10,14 @@ import (
 )
 
 type Env struct {
-	fe    *FnExec
-	st    *State // state for heap reads
-	live  *State // state receiving declarations (nil = st)
-	old   *State // state for old(); nil = st
-	vars  map[string]Binding
-	pkg   string // package path for resolving identifiers
-	depth int
-	qn    *int
+	fe       *FnExec
+	st       *State // state for heap reads
+	live     *State // state receiving declarations (nil = st)
+	old      *State // state for old(); nil = st
+	vars     map[string]Binding
+	pkg      string // package path for resolving identifiers
+	depth    int
+	qn       *int
 	recStack map[string]string // recursive spec functions being defined: key -> SMT symbol
 	// quantifier bookkeeping (see EQuant)
 	idxUses    map[string][]Term
@@ -1141,7 +1141,6 @@ func (e *Env) applySpecFunc(sf *SpecFunc, recv SVal, recvT types.Type, args []SV
 	}
 	return v, retT, nil
 }
-
 
 // applyRecFunc: a recursive spec function is emitted as an SMT define-fun-rec
 // specialised to the heap of the state it is evaluated in (the heap terms occur
